@@ -29,8 +29,9 @@ def check(pid, tier, seed, replay=None):
         else:
             ex = L.enumerate_programs(mdir, 3 if thorough else 2, 1, emit=True)
             absprogs = L.abstract_programs(ex)
-            sim = L.enumerate_programs(mdir, 9, 3, emit=True, workers=1, simulate=6000 if thorough else 1500, seed=seed, depth=40)
+            sim = L.enumerate_programs(mdir, 9, 3, emit=True, workers=1, simulate=6000 if thorough else 1500, seed=seed, depth=40, opset="Ops")
             absprogs += L.abstract_programs(sim)
+            absprogs += L.abstract_programs(L.enumerate_programs(mdir, 2, 0, emit=True, workers=2, opset="BigOps"))
             stats = {"distinct": ex.distinct, "generated": ex.generated}
             g = Gen(seed)
             progs = [p for p in (g.program("p%d" % i, ap) for i, ap in enumerate(absprogs)) if p is not None]
@@ -56,6 +57,9 @@ def check(pid, tier, seed, replay=None):
             outl = [rr[0]]
             for ln in rr[1:]:
                 e = json.loads(ln)
+                if e["a"] == "Stream":
+                    outl.append(ln)
+                    continue
                 pr = byid[e["id"]]
                 je = jout.get(e["id"], {})
                 e["ikeys"] = cborproj.ikeys(e.get("item"))
@@ -96,10 +100,14 @@ def check(pid, tier, seed, replay=None):
             if sig and sig in known and pid == "C08" and "C08" in tags:
                 v.known_finding(sig, known[sig]["what"])
                 continue
+            if e["a"] == "Stream":
+                v.violation("a run of %d events (%d bytes) decoded as one stream: %d lines, %d differ from the event decoded alone (first %d) %s" % (e["events"], e["bytes"], e["lines"], e["mismatch"], e["first"], e["decerr"][:80]),
+                            {"property": pid, "kind": "stream", "record": e})
+                continue
             v.violation("program %s: %s (valbad=%s jdiff=%s decerr=%s)" % (e["id"], tags, e.get("valbad"), e.get("jdiff"), e.get("decerr", "")[:80]),
                         {"property": pid, "program": byid[e["id"]], "recording": e, "json_build": jout.get(e["id"]),
                          "binary_out_b64": decs.get(e["id"], (None, None))[0], "decoded_b64": decs.get(e["id"], (None, None))[1]})
-        nprog = sum(len(x) - 1 for x in shard_lines)
+        nprog = sum(len(x) - 2 for x in shard_lines)
         sample = [json.loads(x[1]) for x in shard_lines[:2] if len(x) > 1]
         cov = {"states": max(1, stats["distinct"]), "transitions": max(1, stats["generated"]), "traces_validated_against_impl": nprog, "samples": sample,
                "programs_run_under_both_build_tags": nprog, "scalar_values_compared_with_arguments": nval, "rejected_for_sibling_property": other,
